@@ -89,9 +89,12 @@ class SubCheck:
 
         def on_path(e, status, result):
             counter[0] += 1
-            w = e.witness()
             do_replay = status == "violation" or (counter[0] % self.replay_every == 0)
-            if len(res["samples"]) < 3 and (status == "ok"):
+            take_sample = len(res["samples"]) < 3 and (status == "ok")
+            if not (do_replay or take_sample):
+                return
+            w = e.witness()
+            if take_sample:
                 res["samples"].append(dict(sub=self.name, shape=shape, witness=w, status=status))
             if not do_replay:
                 return
